@@ -371,6 +371,15 @@ class Report(object):
         self.violations.append((what, replay))
 
     def broken(self, what, detail=None):
+        obs = detail.get('obs') if isinstance(detail, dict) else None
+        if isinstance(obs, dict) and obs.get('_skipped'):
+            self.count('skipped_after_timeouts')
+            return
+        if isinstance(obs, dict) and obs.get('_timeout') and 'case' in detail:
+            # non-termination on a concrete input is a failing input, not merely a broken obligation
+            self.violations.append(('the implementation did not terminate within %.0f s on this case' % obs['_timeout'],
+                                    {'case': detail['case'], 'signature': 'timeout'}))
+            return
         self.unexplained.append((what, detail))
 
     def finish(self, build_res, checker_cmd):
